@@ -174,6 +174,7 @@ def main():
 
     # every violation becomes a replay file and is replayed twice before it is believed
     confirmed = []
+    unreproduced = []
     seen_msgs = set()
     for v in ctx.violations:
         key = v['msg']
@@ -182,7 +183,7 @@ def main():
         seen_msgs.add(key)
         if len(confirmed) >= ctx.max_violations:
             break
-        path = write_replay(pid, len(confirmed) + 1, v, args.tier, seed)
+        path = write_replay(pid, len(confirmed) + len(unreproduced) + 1, v, args.tier, seed)
         outs = []
         for _ in range(2):
             try:
@@ -193,16 +194,24 @@ def main():
             except HarnessError as e:
                 outs.append(f'HARNESS:{e}')
         if outs[0] is None and outs[1] is None:
-            print(f'HARNESS-ERROR: violation did not reproduce from {path}: '
-                  f'explored={v["msg"]!r} replays={outs}')
-            write_evidence(ctx, getattr(mod, 'META', {}), len(ctx.violations))
-            sys.exit(2)
+            # not believed: a counterexample has to fail again from its replay file
+            unreproduced.append((path, v))
+            continue
         if outs[0] != outs[1] or outs[0] != v['msg']:
             # the case fails again when replayed, but not at the same point / not every time: the behaviour depends on
             # something outside the recorded case (object addresses, an unseeded generator).  The unchanged library has no
             # such dependence, so this is reported as a violation, marked unstable.
             v = dict(v, msg=v['msg'] + '  [unstable replay: ' + ' / '.join(str(o) for o in outs) + ']')
         confirmed.append((path, v))
+
+    if unreproduced and not confirmed:
+        # every reported violation vanished on replay: the machinery (or something it does not control) is at fault
+        path, v = unreproduced[0]
+        print(f'HARNESS-ERROR: violation did not reproduce from {path}: explored={v["msg"]!r}')
+        write_evidence(ctx, getattr(mod, 'META', {}), len(ctx.violations))
+        sys.exit(2)
+    for path, v in unreproduced:
+        print(f'note: a further reported case did not fail again on replay and is not counted ({path}): {v["msg"][:160]}')
 
     meta = getattr(mod, 'META', {})
     path, ev = write_evidence(ctx, meta, len(confirmed))
